@@ -22,7 +22,7 @@ pub fn check() -> Check {
         batches: |t: Tier| vec![Batch::new("edges", t.pick(10000, 200000), 300), Batch::new("exact", t.pick(10000, 200000), 300), Batch::new("target", t.pick(2500, 40000), 150)],
         run,
         replay,
-        probes: &["edges_checked", "edge_po", "edge_spawn", "edge_join", "edge_unlock_lock", "edge_rw", "edge_send_recv", "edge_recv_send_bounded", "edge_atomic", "edge_notify_wait", "concurrent_pairs_checked", "target_replays", "target_replay_skipped_steps"],
+        probes: &["edges_checked", "edge_po", "edge_spawn", "edge_join", "edge_unlock_lock", "edge_rw", "edge_send_recv", "edge_recv_send_bounded", "edge_atomic", "edge_sem_release_acquire", "edge_notify_wait", "concurrent_pairs_checked", "target_replays", "target_replay_skipped_steps"],
     }
 }
 
@@ -59,6 +59,8 @@ fn is_advancing(op: &Op, val: &str) -> bool {
         Op::Recv(_) | Op::TryRecv(_) => val.parse::<u64>().is_ok(),
         Op::BarrierWait(_) | Op::Spawn(_) | Op::ScopedSpawn(_) => true,
         Op::Join(_) => val.starts_with("ok"),
+        Op::SemRelease(..) => true,
+        Op::SemTry(..) => val.starts_with("ok"),
         _ => false,
     }
 }
@@ -206,6 +208,57 @@ fn edges(p: &Program, s: &[Sample], bm_rev: &BTreeMap<usize, u32>) -> Vec<(usize
             }
         }
     }
+    // counting semaphores used without blocking (release / try_acquire): permits are handed out FIFO and
+    // carry the clock of the release that produced them
+    for sm in 0..p.res.sems.len() {
+        let mut batches: std::collections::VecDeque<(usize, Option<usize>)> = std::collections::VecDeque::new();
+        if p.res.sems[sm].0 > 0 {
+            batches.push_back((p.res.sems[sm].0, None));
+        }
+        let mut acquired: Vec<usize> = vec![]; // successful acquisitions so far
+        for i in 0..n {
+            match &s[i].op {
+                Op::SemRelease(x, k) if *x == sm && *k > 0 => batches.push_back((*k, Some(i))),
+                Op::SemTry(x, _) if *x == sm && !s[i].val.starts_with("ok") => {
+                    // a failed try learns the clocks the earlier successful acquirers had when they acquired
+                    for a in &acquired {
+                        let pred = (0..*a).rev().find(|j| s[*j].task == s[*a].task);
+                        match pred {
+                            Some(pj) => e.push((pj, i, "edge_acquire_failed_try")),
+                            None => {
+                                // the acquirer's first sample: its clock at that point is what its spawn gave it
+                                if let Some(sp) = (0..n).find(|j| matches!(&s[*j].op, Op::Spawn(c) | Op::ScopedSpawn(c) if *c == s[*a].body)) {
+                                    e.push((sp, i, "edge_acquire_failed_try"));
+                                }
+                            }
+                        }
+                    }
+                }
+                Op::SemTry(x, k) if *x == sm && s[i].val.starts_with("ok") => {
+                    acquired.push(i);
+                    let mut need = *k;
+                    while need > 0 {
+                        match batches.front_mut() {
+                            Some((cnt, src)) => {
+                                if let Some(r) = src {
+                                    e.push((*r, i, "edge_sem_release_acquire"));
+                                }
+                                if *cnt > need {
+                                    *cnt -= need;
+                                    need = 0;
+                                } else {
+                                    need -= *cnt;
+                                    batches.pop_front();
+                                }
+                            }
+                            None => break,
+                        }
+                    }
+                }
+                _ => {}
+            }
+        }
+    }
     // atomics: every earlier write -> every later read / read-modify-write
     for a in 0..p.res.atomics {
         let mut writes: Vec<usize> = vec![];
@@ -238,13 +291,14 @@ fn gen_case(batch: &str, rng: &mut Rng) -> Case {
     cfg.yields = rng.chance(1, 4);
     if batch == "exact" {
         // the restricted family: no try-operations, condvars, barriers, once, bounded channels
-        match rng.below(4) {
+        match rng.below(5) {
             0 => {
                 cfg.mutex = true;
                 cfg.atomic = true;
             }
             1 => cfg.rwlock = true,
             2 => cfg.atomic = true,
+            3 => cfg.sem = true,
             _ => cfg.chan = true,
         }
     } else {
@@ -263,6 +317,22 @@ fn gen_case(batch: &str, rng: &mut Rng) -> Case {
         // remove endpoint drops / try ops (keeps the derived edge set complete)
         for b in prog.bodies.iter_mut() {
             b.retain(|o| !matches!(o, Op::DropRx(_) | Op::TryRecv(_) | Op::TrySend(_)));
+        }
+        // semaphores: non-blocking use only (release / try_acquire of one permit), unfair, so that
+        // permits are consumed exactly in the FIFO order of the batches
+        for sm in prog.res.sems.iter_mut() {
+            sm.1 = false;
+        }
+        for b in prog.bodies.iter_mut() {
+            for o in b.iter_mut() {
+                *o = match o.clone() {
+                    Op::SemAcquire(x, _) | Op::SemCancel(x, _, _) | Op::SemStash(x, _) => Op::SemTry(x, 1),
+                    Op::SemTry(x, _) => Op::SemTry(x, 1),
+                    Op::SemRelease(x, _) => Op::SemRelease(x, 1),
+                    Op::SemClose(x) | Op::SemTakeAwait(x) => Op::SemRelease(x, 1),
+                    other => other,
+                };
+            }
         }
     }
     let mut sim = SimCfg::new(rng.next_u64());
